@@ -3,8 +3,8 @@
    model's semantics of the builtin called `name` on converted arguments (Sem/Eval.v), `off` the
    offset of the local zone (irrelevant here).  Ok = returned value, Panic = Go run-time panic
    (slice bounds), Unk = not modelled.
-   NOT COVERED (the model answers Unk): regexp; replace with an empty pattern (see regexp_not_modelled,
-   replace_empty_pattern).  lower / upper / trim beyond ASCII follow the pinned Unicode tables
+   NOT COVERED (the model answers Unk): regexp (see regexp_not_modelled).  replace with an empty pattern is
+   modelled character by character (replace_empty_pattern).  lower / upper / trim beyond ASCII follow the pinned Unicode tables
    (case_and_trim_unicode ff.). *)
 From Coq Require Import String Ascii.
 From Coq Require Import List ZArith.
@@ -240,9 +240,26 @@ Theorem replace_same_length : forall off s old new, old <> [] -> length new = le
   builtin_apply off (str "replace") [VStr s; VStr old; VStr new] = Ok (VStr r) /\ slen r = slen s.
 Proof. exact BuiltinFacts.replace_same_length. Qed.
 
+(* an empty pattern matches before every character and once at the end - characters as utf8.DecodeRune walks the
+   text, every invalid byte one of its own -, so `new` is put in front of each character and at the end *)
 Theorem replace_empty_pattern : forall off s new,
-  builtin_apply off (str "replace") [VStr s; VStr []; VStr new] = Unk.
+  builtin_apply off (str "replace") [VStr s; VStr []; VStr new] =
+  Ok (VStr (new ++ flat_map (fun st => snd st ++ new) (decode_all s))).
 Proof. exact BuiltinFacts.replace_empty_pattern. Qed.
+
+Theorem replace_empty_ascii : forall s new, Forall (fun b => 0 <= b < 128)%Z s ->
+  flat_map (fun st => snd st ++ new) (decode_all s) = flat_map (fun b => b :: new) s.
+Proof. exact BuiltinFacts.replace_empty_ascii. Qed.
+
+Theorem replace_empty_with_empty : forall off s,
+  builtin_apply off (str "replace") [VStr s; VStr []; VStr []] = Ok (VStr s).
+Proof. exact BuiltinFacts.replace_empty_with_empty. Qed.
+
+Example replace_empty_examples :
+  builtin_apply 0 (str "replace") [VStr (str "ab"); VStr []; VStr (str "-")] = Ok (VStr (str "-a-b-")) /\
+  builtin_apply 0 (str "replace") [VStr []; VStr []; VStr (str "x")] = Ok (VStr (str "x")) /\
+  builtin_apply 0 (str "replace") [VStr [195; 169; 255; 97]; VStr []; VStr [46]] = Ok (VStr [46; 195; 169; 46; 255; 46; 97; 46])%Z.
+Proof. exact BuiltinFacts.replace_empty_examples. Qed.
 
 (* ---- trim strips surrounding (ASCII) whitespace only ---- *)
 
@@ -423,3 +440,6 @@ Print Assumptions join_spec.
 Print Assumptions join_cons.
 Print Assumptions includes_spec.
 Print Assumptions regexp_not_modelled.
+Print Assumptions replace_empty_ascii.
+Print Assumptions replace_empty_with_empty.
+Print Assumptions replace_empty_examples.
